@@ -2,6 +2,8 @@
 // (solve(A_double, rhs, x)), reaches the default 1e-8 on model problems with a truthful residual w.r.t. the double system.
 #include <amgcl/backend/builtin.hpp>
 #include <amgcl/adapter/crs_tuple.hpp>
+#include <amgcl/adapter/block_matrix.hpp>
+#include <amgcl/value_type/static_matrix.hpp>
 #include <amgcl/make_solver.hpp>
 #include <amgcl/amg.hpp>
 #include <amgcl/coarsening/smoothed_aggregation.hpp>
@@ -59,15 +61,136 @@ static void prop_mixed(Tape &t, Ctx &c) {
         std::tie(it2, res2) = solve(f, x2);
     }
     require_truthful(c, use_cg ? "amg<float>+cg<double>" : "amg<float>+bicgstab<double>", A, f, x, iters, resid, tol, maxiter);
-    // Two-argument form: documented to refer to the float copy of A (DESIGN C13) — recorded, not asserted against the double system.
+    // Two-argument form: the double-precision Krylov method iterates on the preconditioner's single precision copy fl(A) (DESIGN C13).
+    // W.r.t. the double system it is only as good as fl(A) is close to A (recorded as labels), but the residual it reports must be
+    // truthful for the matrix it iterates on: fl(A) is exactly representable in double, the harness recomputes f - fl(A) x in long double,
+    // and the allowance is the double-precision drift bound (u = 2^-53), not single-precision rounding.
     long double rho2 = true_relres(A, f, x2);
     c.label(rho2 <= 1e-8L ? "mixed:two-arg-form-true-relres<=1e-8" : rho2 <= 1e-6L ? "mixed:two-arg-form-true-relres<=1e-6" : "mixed:two-arg-form-true-relres>1e-6");
-    (void)it2; (void)res2;
+    Csr<double> Af = A;
+    for (auto &v : Af.val) v = static_cast<double>(static_cast<float>(v));
+    require_truthful(c, use_cg ? "amg<float>+cg<double>, two-argument form on fl(A)" : "amg<float>+bicgstab<double>, two-argument form on fl(A)", Af, f, x2, it2, res2, tol, maxiter, false);
+    // the same with a generated, tighter tolerance
+    {
+        double tol3 = t.b() ? 1e-12 : 1e-10; size_t it3; double res3;
+        std::vector<double> x3(n, 0.0);
+        if (use_cg) {
+            typedef amgcl::make_solver<Amg, amgcl::solver::cg<DB>> Solver;
+            Solver::params p; p.precond.coarse_enough = ce; p.solver.tol = tol3; p.solver.maxiter = 200;
+            Solver solve(Ad, p);
+            std::tie(it3, res3) = solve(f, x3);
+        } else {
+            typedef amgcl::make_solver<Amg, amgcl::solver::bicgstab<DB>> Solver;
+            Solver::params p; p.precond.coarse_enough = ce; p.solver.tol = tol3; p.solver.maxiter = 200;
+            Solver solve(Ad, p);
+            std::tie(it3, res3) = solve(f, x3);
+        }
+        require_truthful(c, use_cg ? "amg<float>+cg<double>, two-argument form on fl(A), tight tol" : "amg<float>+bicgstab<double>, two-argument form on fl(A), tight tol", Af, f, x3, it3, res3, tol3, 200, false);
+    }
+}
+
+// ------------------------------------------------------------------------------------------ mixed precision kernels
+// backend::spmv / residual with a single precision matrix (scalar and 2x2 / 3x3 block valued) and double precision vectors: the vectors
+// decide the working precision, so the result must agree with a long double reference within the summation-order bound in DOUBLE
+// precision, c * 2^-53 * sum|a||x| -- the float matrix entries are exact inputs.
+template <int B>
+static void mixed_block_kernels(const Csr<double> &Af, const std::vector<double> &x, const std::vector<double> &y0, double alpha, double beta,
+                                const std::vector<std::complex<long double>> &ref, const std::vector<long double> &S,
+                                const std::vector<std::complex<long double>> &rref, const std::vector<long double> &rS) {
+    typedef amgcl::static_matrix<float, B, B> fblk;
+    size_t n = static_cast<size_t>(Af.n);
+    std::vector<float> fv(Af.val.begin(), Af.val.end());
+    auto Tf = std::tie(n, Af.ptr, Af.col, fv);
+    ab::crs<fblk> Kb(amgcl::adapter::block_matrix<fblk>(Tf));
+    long double cmax = 0; for (size_t I = 0; I < Kb.nrows; ++I) cmax = std::max<long double>(cmax, static_cast<long double>(Kb.ptr[I + 1] - Kb.ptr[I]));
+    long double cb = 2 * (B * cmax + 4);
+    std::string tag = "crs<static_matrix<float," + std::to_string(B) + "," + std::to_string(B) + ">>";
+    std::vector<double> y = y0;
+    ab::spmv(alpha, Kb, x, beta, y);
+    require_spmv(y, ref, S, cb, "spmv(" + tag + ", double vectors)");
+    std::vector<double> r(n);
+    ab::residual(y0, Kb, x, r);
+    require_spmv(r, rref, rS, cb, "residual(" + tag + ", double vectors)");
+}
+
+static void prop_mixed_kernels(Tape &t, Ctx &c) {
+    int b = static_cast<int>(t.u(2, 3));
+    BlockCase bc = gen_block_case(t, b, t.b() ? 6 : 40);
+    Csr<double> Af = bc.A;
+    // general magnitudes: the products must not be exactly representable in float
+    bool wide = t.b();
+    for (auto &v : Af.val) { if (wide) v *= t.logu(1e-3, 1e3); v = static_cast<double>(static_cast<float>(v)); }
+    std::vector<double> x = gen_vec(t, Af.n, static_cast<int>(t.u(2, 3))), y0 = gen_vec(t, Af.n, static_cast<int>(t.u(2, 3)));
+    double alpha = t.b() ? 1.0 : static_cast<double>(t.u(-3, 3)), beta = t.b() ? 0.0 : static_cast<double>(t.u(-3, 3));
+    c.desc << "mixed kernels b=" << b << " " << bc.family << " " << describe(Af) << " wide=" << wide << " alpha=" << alpha << " beta=" << beta << " A=" << dump_small(Af, 6);
+    c.nontrivial = Af.nnz() > Af.n && Af.n >= 2 * b;
+    c.label("kernels:b=" + std::to_string(b)); c.label("kernels:fam:" + bc.family);
+    std::vector<std::complex<long double>> ref, rref; std::vector<long double> S, rS;
+    ref_spmv(Af, x, alpha, beta, y0, ref, S);
+    ref_spmv(Af, x, -1.0, 1.0, y0, rref, rS);
+    size_t n = static_cast<size_t>(Af.n);
+    std::vector<float> fv(Af.val.begin(), Af.val.end());
+    long double cs = 2 * (static_cast<long double>(max_row_len(Af)) + 4);
+    {   // scalar float matrix: library CRS, and the tuple adapter with float values
+        ab::crs<float> K(n, n, Af.ptr, Af.col, fv);
+        std::vector<double> y = y0;
+        ab::spmv(alpha, K, x, beta, y);
+        require_spmv(y, ref, S, cs, "spmv(crs<float>, double vectors)");
+        std::vector<double> r(n);
+        ab::residual(y0, K, x, r);
+        require_spmv(r, rref, rS, cs, "residual(crs<float>, double vectors)");
+        auto Tf = std::tie(n, Af.ptr, Af.col, fv);
+        std::vector<double> y2 = y0;
+        ab::spmv(alpha, Tf, x, beta, y2);
+        require_spmv(y2, ref, S, cs, "spmv(tuple<float values>, double vectors)");
+    }
+}
+
+// Single precision BLOCK matrix with double precision vectors (kernels, and a double-precision CG iterating on the float-block copy held by
+// amg<builtin<static_matrix<float,2,2>>>: two-argument solve).
+// Known finding F-float-block-times-double: static_matrix<T,N,K> * static_matrix<U,K,M> returns static_matrix<T,N,M> (value_type/static_matrix.hpp:148),
+// i.e. a float block times a double vector is accumulated and rounded in FLOAT; the builtin spmv/residual then add these float results into the
+// double accumulator.  The error is ~6e-8 * sum|a||x| per row instead of ~1e-16.
+static void prop_mixed_block(Tape &t, Ctx &c) {
+    int b = static_cast<int>(t.u(2, 3));
+    BlockCase bc = gen_block_case(t, b, t.b() ? 6 : 40);
+    Csr<double> Af = bc.A;
+    bool wide = t.b();
+    for (auto &v : Af.val) { if (wide) v *= t.logu(1e-3, 1e3); v = static_cast<double>(static_cast<float>(v)); }
+    std::vector<double> x = gen_vec(t, Af.n, static_cast<int>(t.u(2, 3))), y0 = gen_vec(t, Af.n, static_cast<int>(t.u(2, 3)));
+    double alpha = t.b() ? 1.0 : static_cast<double>(t.u(-3, 3)), beta = t.b() ? 0.0 : static_cast<double>(t.u(-3, 3));
+    c.desc << "mixed block kernels b=" << b << " kind=" << bc.kind << " " << bc.family << " " << describe(Af) << " wide=" << wide << " alpha=" << alpha << " beta=" << beta << " A=" << dump_small(Af, 6);
+    c.nontrivial = Af.nnz() > Af.n && Af.n >= 2 * b;
+    c.label("blockkernels:b=" + std::to_string(b));
+    if (c.known("F-float-block-times-double")) return;
+    std::vector<std::complex<long double>> ref, rref; std::vector<long double> S, rS;
+    ref_spmv(Af, x, alpha, beta, y0, ref, S);
+    ref_spmv(Af, x, -1.0, 1.0, y0, rref, rS);
+    if (b == 2) mixed_block_kernels<2>(Af, x, y0, alpha, beta, ref, S, rref, rS);
+    else mixed_block_kernels<3>(Af, x, y0, alpha, beta, ref, S, rref, rS);
+    if (b == 2 && !wide && bc.model()) {
+        // solve level: amg<float 2x2 blocks> under cg<double 2x2 blocks>, two-argument form: truthful for fl(A) in double precision
+        typedef amgcl::static_matrix<float, 2, 2> fblk; typedef amgcl::static_matrix<double, 2, 2> dblk;
+        typedef amgcl::make_solver<amgcl::amg<ab::builtin<fblk>, amgcl::coarsening::smoothed_aggregation, amgcl::relaxation::spai0>, amgcl::solver::cg<ab::builtin<dblk>>> Solver;
+        size_t n = static_cast<size_t>(bc.A.n);
+        Csr<double> Afl = bc.A; for (auto &v : Afl.val) v = static_cast<double>(static_cast<float>(v));
+        auto Ts = std::tie(n, bc.A.ptr, bc.A.col, bc.A.val);
+        Solver::params p; p.solver.maxiter = 200;
+        Solver solve(amgcl::adapter::block_matrix<dblk>(Ts), p);
+        std::string fk; std::vector<double> f = gen_rhs(t, bc.A, fk);
+        std::vector<double> xs(n, 0.0);
+        auto F = ab::reinterpret_as_rhs<dblk>(f); auto X = ab::reinterpret_as_rhs<dblk>(xs);
+        size_t it; double res;
+        std::tie(it, res) = solve(F, X);
+        require_truthful(c, "amg<float 2x2>+cg<double 2x2>, two-argument form on fl(A)", Afl, f, xs, it, res, 1e-8, 200, false);
+    }
 }
 
 static std::vector<Prop> props() {
     return {
         Prop("mixed", prop_mixed, 150, 2500, 100, 300, {1}, 3, 8),
+        Prop("mixed_kernels", prop_mixed_kernels, 300, 5000, 100, 60, {1}, 2, 8),
+        Prop("mixed_block", prop_mixed_block, 150, 2500, 100, 60, {1}, 1, 4),
     };
 }
 static std::vector<Enum> enums() { return {}; }
